@@ -29,6 +29,8 @@ func init() {
 		Rule{ID: "R14d", Doc: "connection death wakes waiters", Floor: 5, AllVariants: true, Run: r14d},
 		Rule{ID: "R14e", Doc: "deadlines exist", Floor: 4, AllVariants: true, Run: r14e},
 		causeRule, lockRule,
+		Rule{ID: "R17d", Doc: "TLS dials hand the dial context to the handshake (shared with C17)", Floor: 3, Run: r17d},
+		Rule{ID: "R05g", Doc: "a pooled connection reported Available never refuses the next id, and one that refuses is retired (otherwise every exchange on it fails until it idles out; shared with C05)", Floor: 4, AllVariants: true, Run: r05g},
 	)
 }
 
